@@ -131,3 +131,18 @@ where
     // invert the permutation
     A.subsref(&W, &ip, &ip);
 }
+
+// ---------------------------------------------------------------------------
+// verification hooks (add-only, off unless feature `verif-hooks` is enabled)
+#[cfg(feature = "verif-hooks")]
+impl<T> ChordalInfo<T>
+where
+    T: FloatT,
+{
+    /// `psd_complete` on a dense column-major n x n matrix
+    pub(crate) fn vh_psd_complete(data: Vec<T>, n: usize, pattern: &SparsityPattern) -> Vec<T> {
+        let mut A = Matrix::new((n, n), data);
+        psd_complete(&mut A, pattern);
+        A.data
+    }
+}
